@@ -114,6 +114,19 @@ fn main() {
                     out.rec(&unary_clean(&s));
                 }
             }
+            // scale: component counts around the widths a narrowed counter would have (u8), far beyond what the exhaustive
+            // strings reach: n names, then k '..' (cancelling none, one, two, all-but-one, all, one more than all of them)
+            for n in [120usize, 254, 255, 256, 257, 258, 300, 511, 512, 513] {
+                for k in [0usize, 1, 2, n - 1, n, n + 1] {
+                    for root in ["/", ""] {
+                        if mine(&mut id) {
+                            let s = format!("{}{}{}", root, vec!["a"; n].join("/"), "/..".repeat(k));
+                            prog.mark(id, "long path");
+                            out.rec(&unary_clean(&s));
+                        }
+                    }
+                }
+            }
             let wide = ["/", ".", "a", "b", "..", "//", "\u{e9}", "\u{65e5}", "~", "$", ":", " ", "ab", "./", "../"];
             let nr = if thorough { 400_000 } else { 40_000 };
             for _ in 0..nr / workers {
